@@ -185,9 +185,11 @@ def effects(fa, rename=None, keep_calls=True, drop_guards=(), callsites=None):
             continue
         k = e.kind
         if callsites is not None:
-            if not (k == 'call' and e.f[0] == 'g' and e.f[1] in callsites and not e.d.get('in_comp')):
+            if not (k == 'call' and e.f[0] == 'g' and e.f[1] in callsites):
                 continue
-            p = ('call', r(e.term))
+            # the element of a loop and the bound variable of a comprehension are "an element" here: a call made per
+            # item is the same plumbing whether the items are visited by a loop or by a comprehension
+            p = ('call', T.transform(r(e.term), lambda x: ('v', '$item') if x[0] in ('elem', 'bv', 'idx') else None))
         elif k == 'raise':
             x = e.exc
             cls = x[1] if x[0] == 'call' else x
